@@ -152,6 +152,10 @@ func readBattery(w *c06world, t *iavl.MutableTree, v int64, snap model.Snap, has
 		if all {
 			op = i % 8
 		}
+		if strings.HasPrefix(tag, "parked@") || tag == "after-pause" {
+			// the (protocol point x reader operation) matrix: which cells were actually overlapped
+			w.count("cell|"+tag+"|"+[]string{"Get", "GetWithIndex", "Has", "Iterator", "IterateRange", "GetProof", "Export", "Hash+GetByIndex"}[op], 1)
+		}
 		switch op {
 		case 0:
 			got, err := it.Get(k)
@@ -1117,6 +1121,13 @@ func init() {
 			for _, k := range []string{"reads_Get", "reads_GetWithIndex", "reads_Has", "reads_Iterator", "reads_IterateRange", "reads_GetProof", "reads_Export", "reads_HashAndGetByIndex", "commits", "prunes", "export_pins_checked", "visibility_histories_linearizable", "hook_overlaps_save:after-commit", "hook_overlaps_prune:version-deleted", "pause_overlaps"} {
 				if obs[k] < 4 {
 					return fmt.Sprintf("observation %s=%d below floor", k, obs[k])
+				}
+			}
+			for _, pt := range c06Points {
+				for _, opn := range []string{"Get", "GetWithIndex", "Has", "Iterator", "IterateRange", "GetProof", "Export", "Hash+GetByIndex"} {
+					if obs["cell|parked@"+pt+"|"+opn] == 0 {
+						return fmt.Sprintf("hook matrix cell (%s x %s) was never overlapped", pt, opn)
+					}
 				}
 			}
 			if obs["race_logs_scanned"] == 0 && obs["race_report_blocks"] == 0 {
